@@ -358,7 +358,8 @@ def _alr_contract(name, languages_ty, props, general=False):
         canaries={"no-lookups": f"len({_ST}) == {_N0} + 2"},
         loops=_alr_loops(general),
         # position-wise view of `statements == st0 + new` (proved once, then used by the postconditions)
-        hints={"for language in languages or ():": [f"all(n < len(st0) or {_ST}[n] == new[n - len(st0)] for n in range(len({_ST})))"]},
+        hints={"for language in languages or ():": [f"all(n < len(st0) or {_ST}[n] == new[n - len(st0)] for n in range(len({_ST})))",
+                                                    f"all(n >= len(st0) or {_ST}[n] == st0[n] for n in range(len({_ST})))"]},
         globals={"fresh": _native_fresh},
         # ghost: the statements at entry, and the list of statements created so far
         ghost_vars={"st0": (List(Ref("FeaStmt")), "feature.statements"), "new": (List(Ref("FeaStmt")), "[]")},
